@@ -16,7 +16,7 @@ from fractions import Fraction
 
 import numpy as np
 
-from . import core, kexpr, pyref
+from . import core, forms, kexpr, pyref
 from .tlc import MachineryError, write_cfg
 from .xreal import to_float, to_fraction
 
@@ -74,6 +74,8 @@ def run(ctx: core.Ctx):
                 ctx.violation(f"{h}.hedge/result-aliased", {"hedge": h}, "unchanged by a later call", "modified", note="an earlier result array was overwritten by a later call of the same shape")
             elif again.shape != arg.shape or not np.allclose(again.ravel(), V[::-1], rtol=0, atol=TOL, equal_nan=True):
                 ctx.violation(f"{h}.hedge/formula/second-{form}-call", {"hedge": h}, "table (reversed)", "differs")
+            if form == "array":
+                forms.check(ctx, f"{h}.hedge", {"hedge": h}, hs[h].hedge, X, V, atol=TOL, exact32=True)
             # batches of length one keep their shape: (1,) and (1, 1)
             for one in (np.array([X[len(X) // 2]]), np.array([[X[len(X) // 3]]])):
                 r1 = np.asarray(hs[h].hedge(one))
